@@ -61,7 +61,7 @@ Proof.
   pose proof (reset_good Wo Wn N (sast S) (added S1) (removed S1) rr Hwfo B2 Hclo HA Htot B1 B3 B4 Hrr'
                 (a_memo (sast S1)) B6) as Hgood.
   unfold memo_after in Hgood.
-  set (memo1 := filter (fun e => negb (mem_uid (fst e) (rr_all rr))) (a_memo (sast S1))) in *.
+  set (memo1 := filter (fun e => negb (mem_slot (u_slot (fst e)) (map u_slot (rr_all rr)))) (a_memo (sast S1))) in *.
   set (todo := filter (fun x => match memo_get memo1 x with Some _ => false | None => true end) (unit_ids Wn)).
   destruct (analyse_units_sim Wn Hcln todo (mkAst memo1 (rr_maps rr)) Hgood) as [A' [Hrun [HA' [Hext Hdone]]]].
   { intros x Hx; apply todo_In in Hx; apply Hx. }
